@@ -102,11 +102,12 @@ def far_value(p, sign, tol, rng):
     return None
 
 
-def decode_params(p, frame, tol, want):
-    """fresh decoder at tolerance tol; returns None if it reports exactly `want`, else a description."""
+def decode_params(p, frame, tol, want, inst=None):
+    """fresh decoder at tolerance tol (or the given instance); returns None if it reports exactly `want`, else a description."""
     from pyIRDecoder import IRException
-    inst = p['cls']()
-    inst.tolerance = tol
+    if inst is None:
+        inst = p['cls']()
+        inst.tolerance = tol
     try:
         c = inst.decode(list(frame), p['frequency'])
     except IRException as e:
@@ -146,10 +147,13 @@ def search(ctx, protos, per):
         # the order in which tolerances are used alternates between protocols: a decoder must honour the tolerance configured
         # on the instance whatever tolerance was in force for earlier decodes in the process
         order = TOLS if pi % 2 else tuple(reversed(TOLS))
+        first_a = None
         for a in gen_inputs.param_assignments(p, rng, per):
             c, e = engine.fresh_encode(p, a)
             if c is None:
                 continue
+            if first_a is None:
+                first_a = a
             frames = c.normalized_rlc
             if len(frames) != 1 and decode_params(p, frames[0], 20, a) is not None:
                 continue        # multi-frame groups are C01's concern
@@ -163,7 +167,7 @@ def search(ctx, protos, per):
                     r = decode_params(p, fp, tol, a)
                     if r is not None:
                         hits[name] = True
-                        ctx.report(name, 'perturbed frame not decoded to the same parameters', dict(a, tol=tol, pattern_long=(pattern == 'long')),
+                        ctx.report(name, 'perturbed frame not decoded to the same parameters', dict(a, tol=tol, pattern_long=(pattern == 'long'), sig='tol%d:%s' % (tol, pattern)),
                                    dict(protocol=name, params=a, tolerance=tol, pattern=pattern, frame=fp, outcome=r))
                         break
                 else:
@@ -171,6 +175,38 @@ def search(ctx, protos, per):
                 break
             else:
                 ctx.passed(name, dict(a, tol=20, pattern_long=False))
+            # the configured tolerance stays in force while a key is held: after the frames of a held key (full frame + repeats)
+            # the instance still reports the tolerance that was set and still accepts a quarter-tolerance perturbation
+            if a is first_a and 'repeat_count' in p['enc_args']:
+                cR, e = engine.fresh_encode(p, a, repeat_count=4)
+                if cR is not None and len(cR.normalized_rlc) >= 3:
+                    from pyIRDecoder import IRException
+                    for tol in order[:2]:
+                        inst = p['cls']()
+                        inst.tolerance = tol
+                        with engine.class_guard(p['cls']):
+                            for fr in cR.normalized_rlc:
+                                try:
+                                    inst.decode(list(fr), p['frequency'])
+                                except Exception:  # noqa
+                                    pass
+                                vlib.drain_workers()
+                            ctx.count_eval(key=(name, tuple(sorted(a.items())), tol, 'held'))
+                            if inst.tolerance != tol:
+                                hits[name] = True
+                                ctx.report(name, 'decoding changes the configured tolerance', dict(a, tol=tol),
+                                           dict(protocol=name, params=a, tolerance_set=tol, tolerance_after=inst.tolerance,
+                                                frames=[list(x) for x in cR.normalized_rlc]))
+                                break
+                            fp = gen_inputs.perturb(f, tol, 'long', rng, period)
+                            r0 = decode_params(p, fp, tol, a)
+                            r1 = decode_params(p, fp, tol, a, inst=inst)
+                            if r0 is None and r1 is not None:
+                                hits[name] = True
+                                ctx.report(name, 'perturbed frame not decoded to the same parameters', dict(a, tol=tol, pattern_long=True, sig='tol%d:after-held-key' % tol),
+                                           dict(protocol=name, params=a, tolerance=tol, pattern='long, after the frames of a held key',
+                                                history=[list(x) for x in cR.normalized_rlc], frame=fp, outcome=r1))
+                                break
             nli = len(p['lead_in'])
             nlo = len(p['lead_out'])
             if len(f) - nli - nlo >= 2:
